@@ -20,9 +20,21 @@ impl Plain {
     async fn short(&self) -> i32 { 1 }
 }
 
+#[derive(SimpleObject)]
+#[graphql(concrete(name = "IntBox", params(i32)), concrete(name = "StrBox", params(String)))]
+#[graphql(cache_control(max_age = 30, private))]
+struct GenBox<T: OutputType> { value: T }
+#[derive(SimpleObject)]
+#[graphql(cache_control(max_age = 15))]
+struct PlainBox { value: i32 }
+
 struct Query;
 #[Object(cache_control(max_age = 60))]
 impl Query {
+    async fn int_box(&self) -> GenBox<i32> { GenBox { value: 1 } }
+    async fn str_box(&self) -> GenBox<String> { GenBox { value: "s".into() } }
+    async fn plain_box(&self) -> PlainBox { PlainBox { value: 1 } }
+    async fn fail(&self) -> Option<Result<i32>> { Some(Err("boom".into())) }
     async fn plain(&self) -> Plain { Plain }
     async fn item(&self) -> Item { Item }
     async fn node(&self) -> Node { Node::Item(Item) }
@@ -38,11 +50,19 @@ impl Query {
 /// args {"query": "...", "public": bool, "max_age": n}  (expected policy written out by hand from the property statement)
 pub fn policy(args: &Value) -> Outcome {
     let schema = Schema::new(Query, EmptyMutation, EmptySubscription);
+    if let Some(batch) = args["batch"].as_array() {
+        // the policy of a batch is the merge over ALL its responses, partial (data + errors) ones included
+        let reqs: Vec<Request> = batch.iter().map(|q| Request::new(q.as_str().unwrap())).collect();
+        let resp = schema.execute_batch(BatchRequest::Batch(reqs)).now_or_never().expect("no pending I/O");
+        let cc = resp.cache_control();
+        let exp = (args["public"].as_bool().unwrap(), args["max_age"].as_i64().unwrap() as i32);
+        return Outcome { holds: (cc.public, cc.max_age) == exp, observed: format!("batch cache_control {:?}", (cc.public, cc.max_age)), expected: format!("{:?}", exp) };
+    }
     let q = args["query"].as_str().unwrap();
     let resp = schema.execute(q).now_or_never().expect("no pending I/O");
     let got = (resp.cache_control.public, resp.cache_control.max_age);
     let exp = (args["public"].as_bool().unwrap(), args["max_age"].as_i64().unwrap() as i32);
-    Outcome { holds: resp.errors.is_empty() && got == exp, observed: format!("cache_control {:?} errors {:?}", got, resp.errors.len()), expected: format!("{:?}", exp) }
+    Outcome { holds: (resp.errors.is_empty() || args["allow_errors"] == true) && got == exp, observed: format!("cache_control {:?} errors {:?}", got, resp.errors.len()), expected: format!("{:?}", exp) }
 }
 
 pub fn inputs(_seed: u64) -> impl Iterator<Item = Value> {
@@ -64,6 +84,19 @@ pub fn inputs(_seed: u64) -> impl Iterator<Item = Value> {
         json!({"query": "{ item { v } }", "public": false, "max_age": 5}),
         json!({"query": "{ ... on Query { item { v } } }", "public": false, "max_age": 5}),
         json!({"query": "{ ...F } fragment F on Query { slow plain { x } }", "public": true, "max_age": 30}),
+        // object-level hints of every kind of object type, incl. generic SimpleObjects instantiated with concrete(...)
+        json!({"query": "{ intBox { value } }", "public": false, "max_age": 30}),
+        json!({"query": "{ strBox { value } free }", "public": false, "max_age": 30}),
+        json!({"query": "{ plainBox { value } }", "public": true, "max_age": 15}),
+        json!({"query": "{ plainBox { value } intBox { value } }", "public": false, "max_age": 15}),
+        // a partial response (data + a captured field error) still carries the policy of its data
+        json!({"query": "{ secret fail }", "public": false, "max_age": 60, "allow_errors": true}),
+        // batches
+        json!({"batch": ["{ free }", "{ secret }"], "public": false, "max_age": 60}),
+        json!({"batch": ["{ slow }", "{ live }", "{ free }"], "public": true, "max_age": -1}),
+        json!({"batch": ["{ free }", "{ secret fail }"], "public": false, "max_age": 60}),
+        json!({"batch": ["{ item { v } fail }", "{ slow }"], "public": false, "max_age": 5}),
+        json!({"batch": ["{ nope }", "{ slow }"], "public": true, "max_age": 30}),
     ];
     v.into_iter()
 }
